@@ -132,14 +132,59 @@ def label_vector(rng, ncycles=None, gaps=True):
 # memory layouts
 
 LAYOUTS = ['C', 'F', 'T', 'strided']
+# the same values and dtype kind in an unusual but valid container (chosen at random wherever a 'strided' view is asked for)
+VIEWS = ['strided', 'strided', 'negstride', 'bigendian', 'subclass', 'masked', 'memmap', 'readonly']
 
 
-def relayout(rng, a, kind=None):
+class _Sub(np.ndarray):
+    """A trivial ndarray subclass (what np.asarray-less code paths may propagate)."""
+
+
+_MM = [0]
+
+
+def _view(a, kind):
+    import os
+    if kind == 'negstride':
+        return a[::-1].copy()[::-1]
+    if kind == 'bigendian':
+        return a.astype(a.dtype.newbyteorder('>')) if a.dtype.kind in 'fiu' and a.dtype.itemsize > 1 else a
+    if kind == 'subclass':
+        return a.copy().view(_Sub)
+    if kind == 'masked':
+        return np.ma.MaskedArray(a.copy())            # (nothing masked)
+    if kind == 'readonly':
+        b = a.copy()
+        b.setflags(write=False)
+        return b
+    if kind == 'memmap':
+        if a.size == 0 or a.dtype.kind not in 'fiub':
+            return a
+        from .harness import WORK
+        os.makedirs(WORK, exist_ok=True)
+        _MM[0] += 1
+        fn = os.path.join(WORK, 'mm_%d_%d.dat' % (os.getpid(), _MM[0]))
+        m = np.memmap(fn, dtype=a.dtype, mode='w+', shape=a.shape)
+        m[...] = a
+        m.flush()
+        r = np.memmap(fn, dtype=a.dtype, mode='r', shape=a.shape)
+        os.unlink(fn)                                 # the mapping outlives the directory entry
+        return r
+    raise ValueError(kind)
+
+
+def relayout(rng, a, kind=None, native=False, exclude=()):
     """Same values and shape, different memory layout: C-contiguous, Fortran-ordered, a transposed view of a
     per-column stack (first two axes swapped in memory), or a strided view into a larger buffer."""
     kind = kind or LAYOUTS[int(rng.integers(len(LAYOUTS)))]
-    if a.ndim < 2:
-        kind = 'strided' if kind != 'C' else 'C'
+    if a.ndim < 2 and kind in ('F', 'T'):
+        kind = 'strided'
+    if kind == 'strided' and rng is not None:
+        kind = VIEWS[int(rng.integers(len(VIEWS)))]
+        if (native and kind == 'bigendian') or kind in exclude:
+            kind = 'negstride'
+    if kind in VIEWS and kind != 'strided':
+        return _view(a, kind), kind
     if kind == 'F':
         return np.asfortranarray(a), kind
     if kind == 'T':
@@ -170,5 +215,5 @@ def present(rng, x, dtypes=('int', 'float32'), p_plain=.7):
     if kind == 'float32':
         x32 = np.asarray(x, dtype=np.float32)
         return x32, x32.astype(float), 'float32'
-    xs, _ = relayout(rng, np.asarray(x), 'strided')
-    return xs, np.asarray(x, dtype=float), 'strided'
+    xs, tag = relayout(rng, np.asarray(x), 'strided')
+    return xs, np.asarray(x, dtype=float), tag
